@@ -106,10 +106,19 @@ inductive SFault where
   | writePop    -- `__setitem__` and `pop` raise
   deriving DecidableEq, Repr, Inhabited
 
+/-- who awaits `Circuit.wait_init()` (from the instant the simulation task was created) -/
+inductive Waiter where
+  | none
+  | task                   -- a task of the application; nobody cancels it
+  | support                -- a supporting coroutine of `edzed.run()`: cancelled by run() when the first task ends
+  | cancelled (t : Nat)    -- a task that is cancelled from outside at instant `t` while the circuit keeps running
+  deriving DecidableEq, Repr, Inhabited
+
 structure Cfg where
   blocks : List Blk := []
   cause : Cause := {}
   waitInit : Bool := false      -- an application task awaits wait_init()
+  waiter : Waiter := .none      -- … and which kind of task that is
   oa : List Nat := []           -- order in which the set of async blocks was iterated
   os : List Nat := []           -- order in which the set of the remaining blocks was iterated
   storageFault : SFault := .none
@@ -356,6 +365,7 @@ structure Result where
   error : Option Err := none        -- Circuit._error
   simDone : Bool := false
   storage : List Nat := []          -- blocks with an entry in the persistent storage afterwards
+  helperSpan : Option (Nat × Nat) := none   -- [from, to): the `_init_done.wait()` helper task of wait_init() exists
   deriving Repr, Inhabited
 
 /-- earliest main task failure among the started blocks: (instant, block) -/
@@ -420,6 +430,8 @@ structure Plan where
   puts : List Ev              -- output functions called by the running circuit
   timers : List Nat           -- timer handles pending when the clean-up begins
   helper : Bool               -- wait_init() is still waiting
+  initEnd : Option Nat        -- instant of `_init_done.set()`, if the initialisation was completed
+  byCause : Bool              -- the simulation is terminated by the scenario's request (not by a main task)
   pendingCancel : Bool        -- a cancellation of the simulation task is still to be delivered
   noPersist : Option Nat      -- `AddonPersistence.event` disabled the persistence of this block, because its
                               -- handler raised and stopped the simulation ("the state may be corrupted")
@@ -467,6 +479,8 @@ def plan (c : Cfg) : Plan :=
     initRes := initRes, failed := failed, inited := pass2
     puts := putBlocks.map (Ev.out · false), timers := sRun.timers
     helper := c.waitInit && !initDone
+    initEnd := if initDone then some ir.2.1 else none
+    byCause := ext.2.2
     -- abort() was called inside the simulator task and an exception left the try block before
     -- the task awaited anything: the CancelledError has not been delivered yet
     pendingCancel := phase == .running && ext.2.2 && c.cause.kind.isInner && c.cause.raiseAfter
@@ -533,6 +547,30 @@ def storageAtStop (bs : List Blk) (p : Plan) : List Nat :=
     (List.range bs.length).filter fun k => (blk bs k).persistent
   else storage0 bs
 
+/-- life span of the helper task `asyncio.create_task(self._init_done.wait())` of a `wait_init()` call made
+    at instant 0: THE HELPER LIVES NO LONGER THAN THE CALL.  The call ends when the initialisation is
+    done, when the simulation task is done (`endTime`), or when its caller is cancelled – by `run()`,
+    which cancels the supporting tasks as soon as one task ends (a supporting task at `termTime`, else
+    the simulation task at `endTime`), or from outside; `wait_init` cancels the helper in a `finally` -/
+def helperSpanOf (c : Cfg) (p : Plan) (endTime : Nat) : Option (Nat × Nat) :=
+  let natural : Nat := match p.initEnd with
+    | some t => min t endTime
+    | none => endTime
+  match c.waiter with
+  | .none => none
+  | .task => some (0, natural)
+  | .support =>
+    let runCancels := if p.byCause && (c.cause.kind == .supportEnd || c.cause.kind == .supportFail)
+      then p.termTime else endTime
+    some (0, min runCancels natural)
+  | .cancelled t => some (0, min t natural)
+
+/-- is the helper task there at instant `t` -/
+def helperAt (span : Option (Nat × Nat)) (t : Nat) : Bool :=
+  match span with
+  | some (a, b) => decide (a ≤ t) && decide (t < b)
+  | none => false
+
 /-- the clean-up of `run_forever` after the events of `p`; `none`: `oa`/`os` are not
     enumerations of the two sets -/
 def finish (c : Cfg) (p0 : Plan) : Option Result :=
@@ -567,7 +605,8 @@ def finish (c : Cfg) (p0 : Plan) : Option Result :=
       timers := cl.st.timers
       error := some (if p.isError then .failure else .cancelled)
       simDone := true
-      storage := saveStep c.storageFault bs p (storageAtStop bs p) }
+      storage := saveStep c.storageFault bs p (storageAtStop bs p)
+      helperSpan := helperSpanOf c p (p.termTime + cl.dur) }
 
 def runForever (c : Cfg) : Option Result :=
   if c.cause.before then
